@@ -76,6 +76,14 @@ Definition omodel (s : ostep) (o : store2) : store2 * bool * list (verb * string
 
 Definition is_edit (s : ostep) : bool := match s with OEdit _ _ | OSplit _ _ _ => true | _ => false end.
 
+(* a text given line by line (the harness prints manifests this way: string literals instead of byte lists) *)
+Fixpoint txt (lines : list string) : string :=
+  match lines with
+  | [] => EmptyString
+  | [l] => l
+  | l :: r => (l ++ String (Ascii.ascii_of_nat 10) (txt r))%string
+  end.
+
 Fixpoint strs_eqb2 (a b : list string) : bool :=
   match a, b with
   | [], [] => true
